@@ -4,6 +4,7 @@ import (
 	"context"
 	"database/sql"
 	"io"
+	"strings"
 	"time"
 
 	"crypto/sha512"
@@ -140,6 +141,20 @@ func (m *AuditLogMiddleware) log(ctx context.Context, op auditlog.Operation, pha
 			outcome = auditlog.OutcomeSuccess
 		}
 	}
+
+	// Entry strings must be valid UTF-8: the hash covers the raw bytes while the
+	// JSON sink can only write valid UTF-8, so anything else (e.g. an upload id
+	// taken verbatim from a query parameter) would make the written log fail
+	// verification and refuse to reopen.
+	resource.bucket = strings.ToValidUTF8(resource.bucket, "\uFFFD")
+	resource.key = strings.ToValidUTF8(resource.key, "\uFFFD")
+	resource.uploadID = strings.ToValidUTF8(resource.uploadID, "\uFFFD")
+	resource.sourceBucket = strings.ToValidUTF8(resource.sourceBucket, "\uFFFD")
+	resource.sourceKey = strings.ToValidUTF8(resource.sourceKey, "\uFFFD")
+	credentialID = strings.ToValidUTF8(credentialID, "\uFFFD")
+	requestID = strings.ToValidUTF8(requestID, "\uFFFD")
+	clientIP = strings.ToValidUTF8(clientIP, "\uFFFD")
+	errMsg = strings.ToValidUTF8(errMsg, "\uFFFD")
 
 	entry := &auditlog.Entry{
 		Version:   auditlog.CurrentVersion,
